@@ -22,6 +22,10 @@ CHECKS = {
          "Exploration: ~60k generated grammars (quick) x rules x inputs, each parsed once without a limit and once per swept limit L (all L when the parse needs <= 400 calls); each limited result must be the unlimited result or `call limit reached`, and completion must be monotone in L.",
          "Trusts the hook counter only to size the sweep (the oracle does not depend on it). VM back-end only. Cases whose unlimited parse panics (empty-stack POP/PEEK) are skipped.",
          "DESIGN.md section 4, C12"),
+ "C13": ("differential against an independently written shunting-yard over proptest operator tables and well-formed sequences, three implementations (Pratt, ConstPratt, PrecClimber)",
+         "Exploration: ~400k random (table, sequence) cases (quick) plus all sequences of <= 3 operand groups over a fixed table with every operator kind; S-expressions must equal the shunting-yard's and pass an independent use-once/in-order predicate.",
+         "Trusts the 60-line shunting-yard in harness/pv/src/c13.rs as the reading of the statement's binding powers.",
+         "DESIGN.md section 4, C13"),
  "C15": ("metamorphic comparison of the same generated parse with error detail off and on, plus validity/renderability predicates on the recorded attempts",
          "Exploration: ~200k generated grammars (quick) x rules x inputs, ~2.5M parse pairs; outcome equality (tokens or error position/line-col/rule sets), no panic with detail on, max_position on a char boundary in range, help message renders.",
          "VM back-end; process-global switch handled by single-threaded worker processes. Says nothing about the *content* of the help message beyond renderability.",
